@@ -101,7 +101,7 @@ func (r *runner) runRange(from, to int, witness string, repeats int) {
 		cmd.Stdout = logf
 		cmd.Stderr = logf
 		cmd.Env = append(os.Environ(),
-			"GORACE=halt_on_error=0 log_path="+filepath.Join(r.runDir, "race"),
+			"GORACE=halt_on_error=0 exitcode=0 log_path="+filepath.Join(r.runDir, "race"),
 			"GOTRACEBACK=all")
 		err := cmd.Start()
 		if err != nil {
